@@ -79,6 +79,25 @@ def plan(tier, seed):
             if P["ext"] == ".py":
                 # probe: how many repository functions are entered while transforming one file (failpoint far beyond the end never fires)
                 probes.append((pname, n, names, base, rf, group))
+    # several workers: the failing file is in flight together with healthy ones (seeded delays and LINE-event yield injection spread the interleavings);
+    # the failure belongs to the file that failed, whatever else is being processed at that moment
+    for pname in ("detector-less", "sast", "dependency"):
+        P = PIPES[pname]; n = 8
+        names = [f"f{i}{P['ext']}" for i in range(n)]
+        rf = {"sonar.json": json.dumps({"hotspots": [{"key": f"H-{nm}-{k}", "rule": "python:S2245", "status": "TO_REVIEW", "component": "proj:" + nm, "textRange": {"startLine": l, "endLine": l, "startOffset": a, "endOffset": b}}
+                                                         for nm in names for k, (l, a, b) in enumerate(P["findings"])]})} if pname == "sast" else {}
+        base = {nm: b64(P["good"] + b"".join(b"pad_%d = %d\n" % (k, k) for k in range(40 * (i % 3)))) for i, nm in enumerate(names)}
+        base.update({k_: b64(v_) for k_, v_ in (P.get("extra_files") or {}).items()})
+        group = f"{pname}|n{n}|w4"
+        def wj(fault, pos, files, mon, bad=None, badb=None, extra=None):
+            j = mkjob(pname, n, fault, pos, files, rf, mon, group, bad, badb, extra); j["argv"] = j["argv"] + ["--max-workers", "4"]; j["id"] += "|w4"; return j
+        jobs.append(wj(None, None, base, {"snap": False}))
+        for rep in range(2 if quick else 8):
+            mon = lambda extra_=None: dict({"snap": False, "delays": {"seed": seed * 100 + rep, "max_ms": 2}, "yield": {"seed": seed * 100 + rep, "p": 0.05}}, **(extra_ or {}))
+            for i, kind in ((0, "syntax-error"), (3, "invalid-utf8")):
+                bb = bad_bytes(pname, kind, P["good"]); files = dict(base); files[names[i]] = b64(bb)
+                jobs.append(wj(kind, i, files, mon(), names[i], files[names[i]], extra=f"#r{rep}"))
+            jobs.append(wj("raise_transform", 1, base, mon({"faults": [{"kind": "raise_transform", "file": names[1]}]}), names[1], base[names[1]], extra=f"#r{rep}"))
     pres = run_jobs([mkjob(pn, n, "probe", 0, base, rf, {"snap": False, "faults": [{"kind": "failpoint", "file": names[0], "j": 10**9}]}, group, names[0], base[names[0]]) for pn, n, names, base, rf, group in probes], timeout=300)
     for (pname, n, names, base, rf, group), r in zip(probes, pres):
         entries = 0
